@@ -1,0 +1,7 @@
+//go:build !verif
+
+package skipset
+
+// verifYield marks a scheduling point for the verification harness (/verif, property C04).
+// Without the build tag `verif` it is this empty function.
+func verifYield(int) {}
